@@ -240,11 +240,11 @@ func c05Str(v any) string {
 // runPropName: a prop may be called like something the engine knows - key (the list hint of a
 // loop), is, ref, slot, name, class, style, id, required, include... - and is a prop all the same:
 // the component receives it (and :required is satisfied by it) on a plain include, on an include
-// that loops itself, on one inside a loop, and through the shorthand tag.
+// that loops itself, on one inside a loop, on one that is slot content used once per row, and through the shorthand tag.
 func (c *c05Case) runPropName(ctx *core.Ctx, name string) {
 	ctx.NonTrivial()
 	for _, form := range []string{"bound", "static", "vbind"} {
-		for _, place := range []string{"plain", "looping", "inloop"} {
+		for _, place := range []string{"plain", "looping", "inloop", "slotrows"} {
 			attr := map[string]string{"bound": ` :` + name + `="p.k"`, "static": ` ` + name + `="s{{ p.k }}"`, "vbind": ` v-bind:` + name + `="p.k"`}[form]
 			tag := `template include="components/Item.vuego"`
 			end := "template"
@@ -259,8 +259,11 @@ func (c *c05Case) runPropName(ctx *core.Ctx, name string) {
 				page = `<ul><` + tag + ` v-for="p in ps"` + attr + `></` + end + `></ul>`
 			case "inloop":
 				page = `<ul><li v-for="p in ps"><` + tag + attr + `></` + end + `></li></ul>`
+			case "slotrows": // the include is slot content that a list component uses once per row
+				page = `<template include="rows.vuego" :rows="ps"><template v-slot="{ p }"><` + tag + attr + `></` + end + `></template></template>`
 			}
-			files := Files{"components/Item.vuego": `<template :required="` + name + `"><b class="it">{{ ` + name + ` }}</b></template>`, "page.vuego": page}
+			files := Files{"components/Item.vuego": `<template :required="` + name + `"><b class="it">{{ ` + name + ` }}</b></template>`, "page.vuego": page,
+				"rows.vuego": `<ul><li v-for="r in rows"><slot :p="r"></slot></li></ul>`}
 			data := map[string]any{"ps": []map[string]any{{"k": "a"}, {"k": "b"}}, name: "PAGE"}
 			ctx.Eval(1)
 			out, err := renderPage(files, "page.vuego", data, vuego.WithComponents())
